@@ -38,12 +38,15 @@ const maxAllowedRt = 3
 
 type Config struct {
 	B []BSpec `json:"breakers"`
+	// ReloadAlt > 0: the alphabet has a reload operation that replaces breaker #0's rule by one with
+	// the threshold toggled between its own and ReloadAlt (statistic parameters unchanged)
+	ReloadAlt float64 `json:"reload_alt_threshold,omitempty"`
 }
 
 func (c Config) String() string { b, _ := json.Marshal(c); return string(b) }
 
 type opDef struct {
-	kind int // 0 start, 1 done ok, 2 done err, 3 tick
+	kind int // 0 start, 1 done ok, 2 done err, 3 tick, 4 reload of rule #0 with the other threshold
 	slot int
 	tick int64
 }
@@ -56,6 +59,9 @@ func (o opDef) String() string {
 		return fmt.Sprintf("done(%d,ok)", o.slot)
 	case 2:
 		return fmt.Sprintf("done(%d,err)", o.slot)
+	}
+	if o.kind == 4 {
+		return "reload(#0,threshold toggled)"
 	}
 	return fmt.Sprintf("tick(%d)", o.tick)
 }
@@ -211,6 +217,30 @@ func (s *scen) Apply(i int) (string, string) {
 	case 3:
 		s.now += o.tick
 		env.Clock.SetMs(s.now)
+	case 4:
+		// a modified rule with unchanged statistic parameters: a new breaker (Closed, no probes) of the
+		// rule's own strategy that keeps the accumulated statistics; the other breakers are untouched
+		// and no listener hears anything
+		nr := *s.rules[0]
+		if nr.Threshold == s.cfg.B[0].Threshold {
+			nr.Threshold = s.cfg.ReloadAlt
+		} else {
+			nr.Threshold = s.cfg.B[0].Threshold
+		}
+		s.rules[0] = &nr
+		if _, err := cb.LoadRules(s.rules); err != nil {
+			return obs, "reload failed: " + err.Error()
+		}
+		if len(cb.VerifBreakers("r")) != len(s.rules) {
+			return obs, "after the reload the resource does not have one breaker per rule"
+		}
+		b := s.m[0]
+		b.spec.Threshold, b.state, b.probeCnt, b.deadline = nr.Threshold, stClosed, 0, 0
+		for _, l := range s.live {
+			if l != nil {
+				l.probeOf &^= 1
+			}
+		}
 	case 0:
 		// reference decision
 		blockedBy := -1
@@ -362,7 +392,7 @@ func (s *scen) Key() string {
 	var sb strings.Builder
 	for bi, b := range s.m {
 		I := int64(b.spec.Interval)
-		fmt.Fprintf(&sb, "%d,%d,", b.state, b.probeCnt)
+		fmt.Fprintf(&sb, "%d,%d,%v,", b.state, b.probeCnt, b.spec.Threshold)
 		if b.state == stOpen {
 			d := b.deadline - s.now
 			if d < 0 {
@@ -420,6 +450,9 @@ func (s *scen) Key() string {
 
 func mkOps(cfg Config) []opDef {
 	ops := []opDef{{kind: 0}}
+	if cfg.ReloadAlt > 0 {
+		ops = append(ops, opDef{kind: 4})
+	}
 	for k := 0; k < maxLive; k++ {
 		ops = append(ops, opDef{kind: 1, slot: k})
 	}
@@ -477,7 +510,7 @@ func configs(quick bool) []Config {
 									continue
 								}
 							}
-							out = append(out, Config{[]BSpec{{strat, th, mr, rt, g.iv, g.bk, pn}}})
+							out = append(out, Config{B: []BSpec{{strat, th, mr, rt, g.iv, g.bk, pn}}})
 						}
 					}
 				}
@@ -492,8 +525,16 @@ func configs(quick bool) []Config {
 		{{2, 1, 0, 5, 10, 1, 0}, {2, 1, 0, 10, 10, 1, 0}},
 	}
 	for _, t := range two {
-		out = append(out, Config{t})
+		out = append(out, Config{B: t})
 	}
+	// reloads of a modified rule in the middle of a history
+	out = append(out,
+		Config{B: []BSpec{{2, 2, 0, 5, 20, 2, 0}}, ReloadAlt: 1},
+		Config{B: []BSpec{{2, 1, 2, 5, 10, 1, 1}}, ReloadAlt: 3},
+		Config{B: []BSpec{{1, 0.5, 2, 5, 20, 2, 0}}, ReloadAlt: 1},
+		Config{B: []BSpec{{0, 0.5, 2, 5, 20, 2, 0}}, ReloadAlt: 1},
+		Config{B: []BSpec{{2, 2, 0, 5, 10, 1, 0}, {1, 0.5, 2, 10, 20, 2, 0}}, ReloadAlt: 1},
+	)
 	return out
 }
 
